@@ -34,7 +34,8 @@ func checkC12(tier, replay string) int {
 	run := evid.NewRun("C12", tier, "fault_enumeration")
 	run.Rule("the real server.Loop runs over orcas.Locked(L1Only | L1L2 | L1L2Batch) whose lock set is wrapped (verif hook) by recording lockers that keep a holder table {lock index -> goroutines, mode}; " +
 		"handlers and responder are fault wrappers around the real ones that panic / return a non-application error / return an application error at the n-th call. A fault-free dry run counts the calls a command makes on L1, L2 and the responder; " +
-		"then EVERY (component, call index, fault kind) is injected for every command kind (multi-key gets: fault at first / middle / last key), single- and multi-reader, text and binary. " +
+		"then EVERY (component, call index, fault kind) is injected for every command kind (multi-key gets: fault at first / middle / last key, also gets naming one key twice so that consecutive keys share a lock stripe), single- and multi-reader, text and binary; " +
+		"the panic and I/O-error faults are repeated with backend handles whose Close() reports an error afterwards (a socket that is already broken). " +
 		"Monitors: holder table empty after the command, no goroutine holds two key locks, a probe command on the same key from a fresh connection completes, " +
 		"and after a panic the client connection is closed (the sentinel's reply arriving without the command's own reply means the panic was swallowed). Plus opposite-order multi-key gets with writers (no deadlock) and clients vanishing mid-command. " +
 		"distinct_nontrivial = distinct (orchestrator, reader mode, protocol, command, component, call index, fault kind)")
@@ -173,7 +174,7 @@ func (p *faultPlan) hit(comp string) error {
 	if fire {
 		p.fired = true
 	}
-	kind := p.kind
+	kind := strings.TrimSuffix(p.kind, "+closeerr")
 	p.mu.Unlock()
 	if !fire {
 		return nil
@@ -268,7 +269,17 @@ func (f *faultHandler) GetE(c common.GetRequest) (<-chan common.GetEResponse, <-
 	}
 	return f.inner.GetE(c)
 }
-func (f *faultHandler) Close() error { return f.inner.Close() }
+// Close closes the backend connection; with a "+closeerr" plan it reports an error once the
+// fault has fired, the way closing an already broken socket does.
+func (f *faultHandler) Close() error {
+	err := f.inner.Close()
+	f.plan.mu.Lock()
+	defer f.plan.mu.Unlock()
+	if f.plan.fired && strings.HasSuffix(f.plan.kind, "+closeerr") {
+		return errors.New("close: connection already closed")
+	}
+	return err
+}
 
 type faultResponder struct {
 	protocol.Responder
@@ -505,12 +516,17 @@ func c12Commands(binary bool) []wire.Cmd {
 		{Op: "get", Keys: []string{"kmiss"}, Opaque: 0x24},
 		{Op: "get", Keys: []string{"ka", "kb", "kc"}, Opaque: 0x30, NoopEnd: binary},
 		{Op: "get", Keys: []string{"ka", "kmiss", "kl2"}, Opaque: 0x38},
+		// consecutive keys of one lock stripe (the same key twice): the lock released for the
+		// previous key and the one just taken are the same locker
+		{Op: "get", Keys: []string{"ka", "ka", "kb"}, Opaque: 0x60, NoopEnd: binary},
+		{Op: "get", Keys: []string{"kb", "kc", "kc"}, Opaque: 0x68},
 	}
 	if binary {
 		cmds = append(cmds, wire.Cmd{Op: "gat", Key: "ka", TTL: 100, Opaque: 0x40}, wire.Cmd{Op: "gat", Key: "kl2", TTL: 100, Opaque: 0x41},
 			wire.Cmd{Op: "set", Key: "ka", Value: v, QuietSet: true, Opaque: 0x42},
 			wire.Cmd{Op: "gete", Keys: []string{"ka"}, Opaque: 0x50},
-			wire.Cmd{Op: "gete", Keys: []string{"kb", "kmiss", "ka"}, Opaque: 0x58, NoopEnd: true})
+			wire.Cmd{Op: "gete", Keys: []string{"kb", "kmiss", "ka"}, Opaque: 0x58, NoopEnd: true},
+			wire.Cmd{Op: "gete", Keys: []string{"ka", "ka", "ka"}, Opaque: 0x70, NoopEnd: true})
 	}
 	return cmds
 }
@@ -565,7 +581,10 @@ func childC12(args []string) int {
 						if n > 6 && idx > 2 && idx < n-1 && !run.Thorough() {
 							continue
 						}
-						for _, kind := range []string{"panic", "panic-error", "panic-runtime", "ioerr", "apperr"} {
+						for _, kind := range []string{"panic", "panic-error", "panic-runtime", "ioerr", "apperr", "panic+closeerr", "ioerr+closeerr"} {
+							if strings.HasSuffix(kind, "+closeerr") && comp == "res" {
+								continue // the backend handles are what reports close errors
+							}
 							if c12Stuck >= 4 {
 								run.Count("fault_cases_skipped_after_4_stuck_requests", 1)
 								continue
